@@ -728,7 +728,6 @@ fn stratum_fuzz(work: &str, seed: u64) {
 	let cases = std::cell::Cell::new(0u64);
 	let shorten = |l: &str| if l.len() > 600 { format!("{}…({} bytes)", &l[..600], l.len()) } else { l.to_string() };
 	let powlen_seen = std::cell::Cell::new(0u64);
-	let strict = std::env::args().any(|a| a == "strict");
 	let fire = |group: &str, line: &str, edge_sweep: bool, must_refuse: bool, out: &mut Out, hist: &mut BTreeMap<String, u64>| {
 		cases.set(cases.get() + 1);
 		let r = std::panic::catch_unwind(AssertUnwindSafe(|| st.request(line, w)));
@@ -743,16 +742,10 @@ fn stratum_fuzz(work: &str, seed: u64) {
 			}
 			Err(e) => {
 				let msg = e.downcast_ref::<&str>().map(|s| s.to_string()).or_else(|| e.downcast_ref::<String>().cloned()).unwrap_or_else(|| "panic".into());
-				// A share whose `pow` list has another length than the proof size (edge_bits 10..=63) also panics while
-				// the proof is hashed - a second defect of the same handler, found by this run on the tree repaired by
-				// 7b054da53 and NOT recorded yet: counted and shown as an observation unless `strict` is given.
-				if group.contains("wrongpowlen") && !strict {
-					*hist.entry(format!("{}:PANIC(observation)", group)).or_insert(0) += 1;
-					if powlen_seen.get() == 0 {
-						out.raw(&format!("#STAT stratumfuzz observation stratum-submit-pow-length: {} -> {}", shorten(line), msg));
-					}
+				// every panic is an oracle failure (a wrong `pow` length: regression probe of C11-stratum-submit-pow-length-panics,
+				// repaired by e4c83ec68; found by this run on the tree repaired for the edge_bits panic only)
+				if group.contains("wrongpowlen") {
 					powlen_seen.set(powlen_seen.get() + 1);
-					return;
 				}
 				fails.set(fails.get() + 1);
 				out.raw(&format!(
@@ -855,7 +848,7 @@ fn stratum_fuzz(work: &str, seed: u64) {
 	for (k, v) in &hist {
 		sline.push_str(&format!(" {}={}", k, v));
 	}
-	out.raw(&format!("#STAT stratumfuzz cases={} widths={} real_solution_found={} pow_length_panics_observed={}{}", cases.get(), widths.len(), solved, powlen_seen.get(), sline));
+	out.raw(&format!("#STAT stratumfuzz cases={} widths={} real_solution_found={} pow_length_panics={}{}", cases.get(), widths.len(), solved, powlen_seen.get(), sline));
 	out.line(&format!("conc node round=stratumfuzz threads=1 cases={} seed={}", cases.get(), seed), if fails.get() == 0 { "ok" } else { "failed" });
 	out.flush();
 }
